@@ -344,14 +344,13 @@ fn range<T: std::fmt::Display>(r: &Range<T>) -> Value {
 }
 
 pub fn ranges(syms: &Syms, strings: &[std::rc::Rc<str>], r: &Ranges) -> Value {
-    fn inner<T: std::fmt::Display>(syms: &Syms, strings: &[std::rc::Rc<str>], v: &[(Range<T>, ParsedValue)]) -> Value {
-        Value::Array(
-            v.iter()
-                .map(|(r, v)| json!({"r": range(r), "v": canon_pieces(syms, strings, v)}))
-                .collect(),
+    fn inner<T: std::fmt::Display>(syms: &Syms, strings: &[std::rc::Rc<str>], v: &[(Range<T>, ParsedValue)]) -> (Value, Value) {
+        (
+            Value::Array(v.iter().map(|(_, v)| canon_pieces(syms, strings, v)).collect()),
+            Value::Array(v.iter().map(|(r, _)| range(r)).collect()),
         )
     }
-    let b = match &r.inner {
+    let (b, rs) = match &r.inner {
         UntypedRangesInner::I8(v) => inner(syms, strings, v),
         UntypedRangesInner::I16(v) => inner(syms, strings, v),
         UntypedRangesInner::I32(v) => inner(syms, strings, v),
@@ -363,7 +362,7 @@ pub fn ranges(syms: &Syms, strings: &[std::rc::Rc<str>], r: &Ranges) -> Value {
         UntypedRangesInner::F32(v) => inner(syms, strings, v),
         UntypedRangesInner::F64(v) => inner(syms, strings, v),
     };
-    json!({"k": "ranges", "ty": r.get_type().to_string(), "ck": strip_prefix_name(&r.count_key.name, "var_"), "b": b})
+    json!({"k": "ranges", "ty": r.get_type().to_string(), "ck": strip_prefix_name(&r.count_key.name, "var_"), "b": b, "rs": rs})
 }
 
 pub fn plurals(syms: &Syms, strings: &[std::rc::Rc<str>], p: &Plurals) -> Value {
@@ -486,6 +485,23 @@ pub fn builders_keys(syms: &Syms, bk: &BuildersKeys) -> Value {
 
 /// `Error` is not an enum we can match exhaustively without coupling to every variant's
 /// fields; the class is the variant name taken from the Debug form, the text is Display.
+/// the double-quoted segments of an error text (key paths and locale names are printed quoted)
+pub fn quoted_segments(text: &str) -> Vec<String> {
+    let mut out = vec![];
+    let mut cur: Option<String> = None;
+    for c in text.chars() {
+        if c == '"' {
+            match cur.take() {
+                Some(s) => out.push(s),
+                None => cur = Some(String::new()),
+            }
+        } else if let Some(s) = cur.as_mut() {
+            s.push(c);
+        }
+    }
+    out
+}
+
 pub fn error_class<E: std::fmt::Debug>(e: &E) -> String {
     let d = format!("{:?}", e);
     d.chars().take_while(|c| c.is_alphanumeric() || *c == '_').collect()
